@@ -17,3 +17,13 @@ Proof. revert k. induction cs as [|c r IH]; intros k H; [exact H|]. cbn [fold_le
 (* the only classes that switch it off (extracted class table) *)
 Lemma gba_classes : forall c, cls_gba c = match c with COracle | CMSSQL => false | _ => true end.
 Proof. destruct c; reflexivity. Qed.
+
+(* the contexts Query.rquery hands to the items of EVERY clause (select list, ON, WHERE, GROUP BY, HAVING, ORDER BY: always
+   [with_c k c] for the statement's own k) and to function arguments ([fk]) keep the switch: a sub-query below an ORDER BY /
+   GROUP BY item, directly or inside a function call, sees the Oracle / MSSQL setting of the enclosing statement *)
+Lemma gba_with_c k c : k_gba (with_c k c) = k_gba k.
+Proof. reflexivity. Qed.
+Lemma gba_fk k : k_gba (fk k) = k_gba k.
+Proof. reflexivity. Qed.
+Lemma gba_below_items k c c' cls_ : k_gba k = false -> k_gba (defaults cls_ (with_c (fk (with_c k c)) c')) = false.
+Proof. intros H. apply gba_inherited. rewrite gba_with_c, gba_fk, gba_with_c. exact H. Qed.
